@@ -70,6 +70,8 @@ def jobs(tier, seed):
     for d in f2 + pats + multi:
         vs = rt.variables_of(d)
         js.append({"mode": "barenumber", "d": d, "nvars": len(vs)})
+        if len(vs) <= 1 and d[0] not in ("var", "const"):
+            js.append({"mode": "barenumber", "d": d, "nvars": len(vs), "embed": True})
     js.append({"mode": "names"})
     js.append({"mode": "names", "maxlen": 3, "twin": "lowercase-only"})
     add(["Multiply", fam.X, fam.Y], ["eval"], "x", ["x", "y"], twin="pretend-missing")
